@@ -116,6 +116,7 @@ def benign_entries():
         # every if/else inverted; trailing ifs turned into guard clauses; all three together
         out.append(('benign-invert', prop, '<alpha>', 'invert', '', 'ok'))
         out.append(('benign-guard', prop, '<alpha>', 'guard', '', 'ok'))
+        out.append(('benign-flip', prop, '<alpha>', 'flip', '', 'ok'))
         out.append(('benign-all-mechanical', prop, '<alpha>', 'all', '', 'ok'))
     return out
 
@@ -128,11 +129,13 @@ def run_variant(args):
             return ident, 'skipped', 'patch does not apply to the current sources'
         if module == '<patch+alpha>':
             from selftest import alpha
-            sources = alpha.rename_locals(alpha.guard_clauses(alpha.invert_ifs(sources)))
+            sources = alpha.rename_locals(alpha.flip_comparisons(alpha.guard_clauses(alpha.invert_ifs(sources))))
     elif module == '<alpha>':
         from selftest import alpha
         sources = {'alpha': alpha.rename_locals, 'invert': alpha.invert_ifs, 'guard': alpha.guard_clauses,
-                   'all': lambda x: alpha.rename_locals(alpha.guard_clauses(alpha.invert_ifs(x)))}[old](sources)
+                   'flip': alpha.flip_comparisons,
+                   'all': lambda x: alpha.rename_locals(alpha.flip_comparisons(
+                       alpha.guard_clauses(alpha.invert_ifs(x))))}[old](sources)
     else:
         src = sources[module]
         if src.count(old) < 1:
